@@ -76,6 +76,25 @@ class BloomSystem(System):
     def _alpha(self, cfg):
         return K.alphabet(cfg["strat"], cfg["m"], cfg["k"], cfg["seed"])
 
+    _near_cache = {}
+
+    def _near(self, cfg):
+        """(n, p') whose filter has the same number of hashes and bytes but another number of bits, or None:
+        not a compatible operand - a union with it must not yield a filter that forgets keys"""
+        ck = (cfg["n"], cfg["p"])
+        if ck not in self._near_cache:
+            found = None
+            for j in range(1, 300):
+                try:
+                    c = BloomFilter(cfg["n"], cfg["p"] * (1 + j * 0.004))
+                except Exception:  # noqa: BLE001
+                    break
+                if c.number_bits != cfg["m"] and c.number_hashes == cfg["k"] and c.bloom_length == -(-cfg["m"] // 8):
+                    found = cfg["p"] * (1 + j * 0.004)
+                    break
+            self._near_cache[ck] = found
+        return self._near_cache[ck]
+
     def _other(self, cfg, hf, keys):
         o = BloomFilter(cfg["n"], cfg["p"], hash_function=hf)
         o.add(keys[-1])
@@ -93,6 +112,8 @@ class BloomSystem(System):
         evs += [("reload", ch) for ch in ("bytes", "hex", "file")]
         evs.append(("union", "other"))
         evs.append(("union", "empty"))
+        if self._near(cfg) is not None:
+            evs.append(("union", "near"))
         evs.append(("clear",))
         return evs
 
@@ -132,8 +153,12 @@ class BloomSystem(System):
                 return ("ok", None)
             return r
         if kind == "union":
-            empty = len(ev) > 1 and ev[1] == "empty"
-            other = BloomFilter(cfg["n"], cfg["p"], hash_function=hf) if empty else self._other(cfg, hf, keys)
+            empty = len(ev) > 1 and ev[1] in ("empty", "near")
+            if len(ev) > 1 and ev[1] == "near":
+                other = BloomFilter(cfg["n"], self._near(cfg), hash_function=hf)
+                other.add("near-only")
+            else:
+                other = BloomFilter(cfg["n"], cfg["p"], hash_function=hf) if empty else self._other(cfg, hf, keys)
             r = call(f.union, other)
             if r[0] == "ok" and r[1] is not None:
                 st.impl = r[1]
@@ -183,7 +208,7 @@ class BloomSystem(System):
             for p in ("C01", "C05", "C14", "C19"):
                 bad(p, "bloom.event_returns", {"ev": ev, "obs": obs})
             return out
-        if ev[0] == "union" and obs[1] is None:
+        if ev[0] == "union" and obs[1] is None and not (len(ev) > 1 and ev[1] == "near"):
             bad("C01", "bloom.union_of_compatible_is_filter", {"ev": ev})
         # C01: bits are only ever added (except by clear)
         if ev[0] != "clear" and "C01" in props:
@@ -282,6 +307,19 @@ class BloomSystem(System):
             div = twin_divergence(self, cfg, st, lambda q: self._ro(cfg, q.impl, keys, hf, self._other(cfg, hf, keys)), lambda x: bloomlib.bloom_observation(x.impl))
             if div is not None:
                 bad("C19", "bloom.queried_twin_diverges_one_step_later", div)
+        # every explored object has been queried at all its ancestor states: its answers must equal those of an
+        # object freshly loaded from its export (which carries no hidden query state)
+        bb = call(bytes, f)
+        if bb[0] == "ok":
+            fresh_load = call(lambda: BloomFilter.frombytes(bb[1], hash_function=hf))
+            if fresh_load[0] == "ok":
+                def answers(x):
+                    return ([call(x.check, k) for k in list(keys) + ["absent-1"]], call(x.estimate_elements),
+                            call(x.current_false_positive_rate), call(str, x))
+
+                if answers(f) != answers(fresh_load[1]):
+                    bad("C19", "bloom.answers_independent_of_earlier_queries", {"live": repr(answers(f))[:300],
+                                                                                 "fresh_load": repr(answers(fresh_load[1]))[:300]})
         # clear() == fresh object, also one step later
         g = self.clone(st).impl
         c = call(g.clear)
